@@ -144,7 +144,6 @@ revert_harness!(revert_nothing_00_00, 34, true, 0, P00, [0, 0]);
 revert_harness!(revert_to_00_00, 34, true, 1, P00, [0, 0]);
 revert_harness!(revert_delete_absent_00_00, 34, true, 2, P00, [0, 0]);
 revert_harness!(revert_delete_existing_00_00, 34, true, 3, P00, [0, 0]);
-revert_harness!(revert_to_10_10, 34, true, 1, P10, [1, 0]);
 
 macro_rules! roundtrip {
     ($name:ident, $sb:expr, $st:expr, $flag:expr, $exo:expr, $same:expr) => {
